@@ -358,6 +358,7 @@ theorem runAct_reg_sorted (c : Core) (a : Act) (hf : c.facts = Facts.canon) (h :
   | raise => exact h
   | resolve wid => simp only [runAct]; split <;> exact h
   | monitor on => exact h
+  | reenter => exact h
 
 theorem runActs_reg_sorted (c : Core) (acts : List Act) (hf : c.facts = Facts.canon) (h : RegSorted c.reg) :
     RegSorted (runActs c acts).1.reg := by
@@ -766,6 +767,7 @@ theorem runAct_futInv (c : Core) (a : Act) (h : FutInv c) : FutInv (runAct c a).
   | replaceRaw ev hd => exact h
   | raise => exact h
   | monitor on => exact h
+  | reenter => exact h
 
 theorem runActs_futInv (c : Core) (acts : List Act) (h : FutInv c) : FutInv (runActs c acts).1 := by
   induction acts generalizing c with
